@@ -48,6 +48,13 @@ uint32_t process_neg_disp(uint32_t neg_num);
 unsigned int get_index_reg(struct instr *instruc, const char *mem, char reg[]);
 
 /**
+ * checks that the memory operand @param mem has one of the supported shapes
+ * [base + index*scale +- offset], [base + scale*index +- offset],
+ * [scale*index +- offset] or [constant]; returns EXIT_FAILURE otherwise
+ */
+int check_mem_syntax(const char *mem);
+
+/**
  * finds the addition sign in @param mem and returns the index of memory
  * displacement as well as determining its base its sign(+ or -)
  */
